@@ -395,6 +395,13 @@ func (cs *clientStream) doHttpCall(transport http.RoundTripper, req *http.Reques
 		}
 		defer cs.rMu.Unlock()
 
+		if rErr != nil {
+			if ctxErr := cs.ctx.Err(); ctxErr != nil {
+				// whatever I/O error the cancellation provoked, the
+				// call ended because its context did
+				rErr = statusFromContextError(ctxErr)
+			}
+		}
 		if rErr != nil && cs.rErr == nil {
 			cs.rErr = rErr
 		}
